@@ -23,7 +23,7 @@
 (***************************************************************************)
 EXTENDS Integers, Sequences, FiniteSets, TLC
 
-CONSTANTS ShapeIds,     \* which initial documents (subset of 1..4)
+CONSTANTS ShapeIds,     \* which initial documents (subset of 1..5)
           ScalarIds,    \* which replacement scalars (subset of {"i7", "s8", "w1", "bt"})
           PathClasses,  \* which classes of assignment (see Classify) histories may contain
           MaxOps        \* operations after the initialisation
@@ -45,7 +45,9 @@ IsCont(x) == x.t \in {"m", "a"}
 Shape == <<M(<<"p", "q", "r">>, <<I(1), W(2), B(1)>>),                                        \* flat map
            A(<<I(1), W(2), B(1)>>),                                                           \* flat array
            M(<<"m", "l", "n">>, <<M(<<"p", "q">>, <<I(1), W(2)>>), A(<<I(3), W(4)>>), I(5)>>),   \* map of containers
-           A(<<M(<<"p">>, <<I(1)>>), A(<<I(3), I(4)>>), W(2)>>)>>                              \* array of containers
+           A(<<M(<<"p">>, <<I(1)>>), A(<<I(3), I(4)>>), W(2)>>),                               \* array of containers
+           \* keys that differ from the new key "z" and from each other only in case: a key is a key, exactly as written
+           M(<<"Z", "q", "Q">>, <<I(1), W(2), B(1)>>)>>
 ScalarOf == [i7 |-> I(7), s8 |-> S(8), w1 |-> W(1), bt |-> B(1)]
 Scalars == {ScalarOf[id] : id \in ScalarIds}
 
